@@ -51,6 +51,7 @@ type listener struct {
 
 	ln           net.Listener
 	conns        map[net.Conn]struct{}
+	stopped      bool // set by Stop: no further connection is registered
 	connsWg      sync.WaitGroup
 	connHandleFn ConnHandlerFunc
 
@@ -208,7 +209,7 @@ func (l *listener) wrapRawConn(rawConn net.Conn) net.Conn {
 func (l *listener) addConn(conn net.Conn) bool {
 	l.mu.Lock()
 	defer l.mu.Unlock()
-	if l.conns == nil {
+	if l.stopped {
 		return false
 	}
 	if l.connsLimit() {
@@ -225,9 +226,6 @@ func (l *listener) addConn(conn net.Conn) bool {
 func (l *listener) removeConn(conn net.Conn) {
 	l.mu.Lock()
 	defer l.mu.Unlock()
-	if l.conns == nil {
-		return
-	}
 	if _, ok := l.conns[conn]; !ok {
 		return
 	}
@@ -266,15 +264,20 @@ func (l *listener) Stop() error {
 		close(l.quit)
 	})
 
+	// the connections stay registered until their handlers return, so that
+	// removeConn still accounts for them (destroyed counter, active gauge).
 	l.mu.Lock()
-	conns := l.conns
-	l.conns = nil
+	l.stopped = true
+	conns := make([]net.Conn, 0, len(l.conns))
+	for conn := range l.conns {
+		conns = append(conns, conn)
+	}
 	l.mu.Unlock()
 
 	if l.ln != nil {
 		l.ln.Close()
 	}
-	for conn := range conns {
+	for _, conn := range conns {
 		conn.Close()
 	}
 	<-l.done
